@@ -44,8 +44,8 @@ func main() {
 				runScript(c, flavour{prop: "C11", mutations: 3, timers: 8, watermarks: 40, manySenders: true, tinyCache: true})
 			}},
 		&lib.Prop{ID: "C02", Part: "alignment", Level: "exploration", NCases: n(80, 4000),
-			Assumptions: append([]string{"the job never starts checkpoint N+1 before N completed, so barriers of two checkpoints never overlap", "the verif hook in alignSender only reports that a sender parked / was released; a sender that is NOT held is detected by its HandleEvent returning before the last barrier"}, opAssume[1:]...),
-			Rule:        "[2..4 senders; 4 of 5 checkpoints are concurrent: after its barrier a sender immediately tries to deliver its next event (several senders with keyed events, or one sender with a watermark whose timers are due) from its own goroutine, exactly like the embedded client] " + scriptRule + "; extra oracle: an aligned sender must park (hook) and not return until the last barrier was handled; the acknowledgement must come after exactly the handler invocations of the pre-barrier events (cut position); the DKV checkpoint named in the ack read back == shadow frozen at the ack; released events reach the handler after the cut in any order among themselves; in half of the aligned-sender episodes barrier and next event travel in ONE batch through the embedded operator client; some parked requests are abandoned by their caller (context cancelled) and their event must still not reach the handler before the cut; half of the cases give the operator a slow log sink (a seeded fraction of its log calls yields or sleeps up to 2 ms: every log call is a possible delay); with >=3 runners one of them may send SourceComplete: it sends no more records or watermarks, its barriers are still awaited",
+			Assumptions: append([]string{"the job never starts checkpoint N+1 before N completed, so barriers of two checkpoints never overlap except in the last step (a runner that missed checkpoint N)", "the verif hook in alignSender only reports that a sender parked / was released; a sender that is NOT held is detected by its HandleEvent returning before the last barrier"}, opAssume[1:]...),
+			Rule:        "[2..4 senders; 4 of 5 checkpoints are concurrent: after its barrier a sender immediately tries to deliver its next event (several senders with keyed events, or one sender with a watermark whose timers are due) from its own goroutine, exactly like the embedded client] " + scriptRule + "; extra oracle: an aligned sender must park (hook) and not return until the last barrier was handled; the acknowledgement must come after exactly the handler invocations of the pre-barrier events (cut position); the DKV checkpoint named in the ack read back == shadow frozen at the ack; released events reach the handler after the cut in any order among themselves; in half of the aligned-sender episodes barrier and next event travel in ONE batch through the embedded operator client; some parked requests are abandoned by their caller (context cancelled) and their event must still not reach the handler before the cut; half of the cases give the operator a slow log sink (a seeded fraction of its log calls yields or sleeps up to 2 ms: every log call is a possible delay); with >=3 runners one of them may send SourceComplete: it sends no more records or watermarks, its barriers are still awaited; last step of half of the cases: a checkpoint that reaches only some runners (they deliver barrier N) while the others deliver a barrier with a later id next — no acknowledgement may appear for an id whose barrier some runner has not delivered (the only overlap of two checkpoint ids a lost StartCheckpoint can produce)",
 			Run: func(c *lib.Ctx) {
 				runScript(c, flavour{prop: "C02", mutations: 8, timers: 6, watermarks: 14, manySenders: true, concurrent: true})
 			}},
